@@ -59,6 +59,7 @@ def run(tier, seed):
     ares, ainp = Q.replay(PROP, abehs, "attacks")
     Q.collect(PROP, ares, verdict, ainp, foreign)
 
+    selftest = Q.binding_selftest(PROP, behs)
     rc = verdict.report()
     div = res["counters"].get("divergences", 0)
     if div:
@@ -73,7 +74,7 @@ def run(tier, seed):
                 "with real keys) + attack traces of weakened specs; non-trivial = at least one message reception",
         "exhaustive": all(c["exhaustive"] for c in configs),
         "detail": {"configs": configs, "attack_traces": [b["id"] for b in abehs], "stale_attacks": stale,
-                   "divergences": div, "divergence_samples": res["divergences"][:5],
+                   "divergences": div, "binding_selftest": selftest, "divergence_samples": res["divergences"][:5],
                    "attack_steps_refused": ares["counters"].get("attack_steps_refused", 0),
                    "foreign_signatures_seen": foreign,
                    "exhaustive_scope": "per adversary class only (see configs); never for all Byzantine behaviours"},
